@@ -8,7 +8,10 @@ Driver of C11. One request per line, `<mode>` is `j` (JSON constants) or `p` (Py
   `l:<k>` list of the last k values   `d:<k>` dict of the last k (key, value) pairs (key: `s:`, `i:`, T/F/Z)
   `r:<k>` the k-th container completed so far, once more (a shared object)
 
-  pp|ps|pa <mode> <value>   text of the printed value (whole text, `str()`, text after an iteration) -> ok <cps>
+  pp|np|ps|pa <mode> <value>   text of the printed value (whole text, the same from a printer object made for this
+                            call, `str()`, text after an iteration) -> ok <cps>
+  pf|lf <mode> <value>      values with float keys: not in the model (answered `bad-op`; the harness's oracle alone
+                            judges these lines)
   pc|pw <mode> <value>      the same text, obtained with colours on and stripped / through PPWrap (diagnostic)
   ln|lc|lr|l2|li|lp|lz <mode> <value>  the lines of the line iteration, whatever the order in which the caller
                             collects and renders them (the model is a pure function)  -> ok <cps>|<cps>|…
@@ -132,7 +135,7 @@ def handle (line : String) : String :=
       -- the model is a pure function: every way of consuming the result sees the same text / lines
       if !intsPrintable v then "err ValueError"   -- CPython's str(int) limit (4300 digits): outside the domain
       else if !(wfB c.strKeys v && distinctB v) then "out-of-domain"     -- the hypothesis `WF` of the theorems, checked on every request
-      else if op = "pp" || op = "ps" || op = "pa" || op = "pc" || op = "pw" then "ok " ++ showCps (text (gen c limits v 0))
+      else if op = "pp" || op = "np" || op = "ps" || op = "pa" || op = "pc" || op = "pw" then "ok " ++ showCps (text (gen c limits v 0))
       else if op = "ln" || op = "lc" || op = "lr" || op = "l2" || op = "li" || op = "lp" || op = "lz" then
         "ok " ++ "|".intercalate ((groupLines (gen c limits v 0)).map fun l => showCps (lineText l))
       else "bad-op"
